@@ -18,8 +18,26 @@ MSG = 'des::net::message::Message'
 SINK_ADD = 'des::runtime::event::EventSink::add'
 
 
-def _carries_message(ty):
-    return MSG in ty or 'MessageExitingConnection' in ty or 'NetEvents' in ty
+def _carriers(P):
+    """names of the local ADTs that own a Message directly (field of type Message / tuple or Option of it): on the pinned tree the
+    exit and delivery events; a private record introduced for queue entries is found the same way"""
+    c = getattr(P, '_msg_carriers', None)
+    if c is None:
+        c = set()
+        for k, a in P.adts.items():
+            for v in a.get('variants', []):
+                for fd in v['fields']:
+                    ty = fd['ty']
+                    if ty == MSG or ty.startswith('(' + MSG) or ty == 'std::option::Option<%s>' % MSG:
+                        c.add(k)
+        P._msg_carriers = c
+    return c
+
+
+def _carries_message(ty, P=None):
+    if MSG in ty or 'MessageExitingConnection' in ty or 'NetEvents' in ty:
+        return True
+    return P is not None and any(k in ty for k in _carriers(P))
 
 
 def _implicit_message_drops(ctx, f, path, decs):
@@ -32,7 +50,7 @@ def _implicit_message_drops(ctx, f, path, decs):
             continue
         t = ev[3]
         ty = t['ty']
-        if not _carries_message(ty):
+        if not _carries_message(ty, ctx.P):
             continue
         if ty.startswith(('&', 'std::sync::RwLock', 'std::sync::RwLockWriteGuard', 'std::sync::RwLockReadGuard', 'std::sync::Arc')):
             continue
@@ -88,11 +106,11 @@ def _consumers(f, effs):
             sched += 1
         elif s.name == CH + 'Buffer::enqueue':
             enq += 1
-        elif s.name == 'std::mem::drop' and s.argtys and _carries_message(s.argtys[0]) and not s.argtys[0].startswith('std::sync'):
+        elif s.name == 'std::mem::drop' and s.argtys and _carries_message(s.argtys[0], f.program) and not s.argtys[0].startswith('std::sync'):
             drops += 1
         elif s.name in (CH + 'Channel::send_message', CH + 'ChannelDropBehaviour::handle'):
             fwd += 1
-        elif s.name == 'std::collections::VecDeque::push_back' and s.argtys and len(s.argtys) > 1 and _carries_message(s.argtys[1]):
+        elif s.name == 'std::collections::VecDeque::push_back' and s.argtys and len(s.argtys) > 1 and _carries_message(s.argtys[1], f.program):
             enq += 1
     return sched, enq, drops, fwd
 
@@ -321,8 +339,17 @@ def r3_byte_accounting(ctx):
         ctx.touch(f)
         if f.key in ('<%sBuffer as std::default::Default>::default' % CH,):
             continue
-        for (b, i, st) in w:
-            t = f.expr_rvalue(st['r'], b, i)
+        stores = [(b, f.expr_rvalue(st['r'], b, i)) for (b, i, st) in w]
+        m2 = []
+        for (b, i, st) in m:
+            # `&mut self.<counter>` captured by a closure written in this very function (`pop_front().map(|p| { self.n -= ..; p })`)
+            cw = captured_borrow_writes(P, f, b, i, st)
+            if cw:
+                stores += [(b, t) for (_g, _b, _i, t) in cw]
+            else:
+                m2.append((b, i, st))
+        m = m2
+        for (b, t) in stores:
             tt = t[1] if (t[0] == 'field' and t[1][0] == 'bin') else t
             want = ok_map.get(f.key)
             good = want is not None and tt[0] == 'bin' and tt[1].startswith(want) and \
@@ -350,6 +377,18 @@ def r4_idle_path(ctx):
         return
     NOWADD = lambda t, callee: t[0] == 'call' and t[1].endswith('::add') and any(x[0] == 'call' and x[1] == 'des::time::SimTime::now' for x in walk(t)) \
         and any(x[0] == 'call' and x[1] == callee for x in walk(t))
+    def travel(t):
+        """now + calculate_duration(..), or now + the body of that function when a shared private helper was spliced into both:
+        every alternative is latency + transmission time (R6 decides the exact formula on calculate_duration itself)"""
+        if NOWADD(t, CH + 'ChannelMetrics::calculate_duration'):
+            return True
+        if not (t[0] == 'call' and t[1].endswith('::add') and len(t[2]) == 2 and any(x[0] == 'call' and x[1] == 'des::time::SimTime::now' for x in walk(t[2][0]))):
+            return False
+        alts = [peel(t[2][1])]
+        while any(a[0] == 'phi' for a in alts):
+            alts = [peel(y) for a in alts for y in (a[1] if a[0] == 'phi' else [a])]
+        return all(any(x[0] == 'field' and x[2] == 'latency' for x in walk(a)) and
+                   any(x[0] == 'call' and x[1] == CH + 'ChannelMetrics::calculate_busy' for x in walk(a)) for a in alts)
     n = 0
     for path, outcome, decs in fn_paths(ctx, f):
         if outcome != 'return':
@@ -387,7 +426,7 @@ def r4_idle_path(ctx):
         ok = len(ex) == 1
         if ok:
             t = peel(ex[0][2][2])
-            ok = NOWADD(t, CH + 'ChannelMetrics::calculate_duration')
+            ok = travel(t)
         ctx.check(ok, 'exit-scheduled', 'every accepted transmission schedules exactly one exit event at now + calculate_duration', f.where_path(path))
     ctx.floor('idle paths of send_message', n, 2)
     g = ctx.P.fns.get(CH + 'Channel::set_busy_until')   # may have been inlined into send_message (handled above)
